@@ -166,13 +166,32 @@ fn build_items(lang: &str, mode: Mode, raw: Vec<RawItem>, out: &mut Vec<Item>) {
             0..=29 => {
                 let c = &v.classes[idx(a, v.classes.len())];
                 let w = c[idx(b, c.len())].clone();
-                let class = if idx(a, v.classes.len()) == v.ord_class { Class::Ord } else if idx(a, v.classes.len()) == v.zero_class { Class::Zero } else { Class::Num };
+                let class = if idx(a, v.classes.len()) == v.ord_class || idx(a, v.classes.len()) == 7 { Class::Ord } else if idx(a, v.classes.len()) == v.zero_class { Class::Zero } else { Class::Num };
                 push(w, class, out);
             }
             30..=41 => {
                 let mut ch = Bytes::new(&extra);
-                for w in spell::cardinal(lang, n, &mut ch) {
-                    push(w, Class::Num, out);
+                // 1 in 12: a numeral beyond the spellers' range, built with the 10^12 scale words the
+                // language publishes (de billion, it bilione/bilioni, nl biljoen, pt bilião/biliões): 16..25 digits
+                let chain: &[&str] = match lang {
+                    "de" => &["millionen", "milliarden", "milliarde", "billion"],
+                    "it" => &["milioni", "miliardi", "bilioni"],
+                    "nl" => &["miljoen", "miljard", "biljoen"],
+                    "pt" => &["milhões", "biliões"],
+                    _ => &[],
+                };
+                if extra[7] < 21 && !chain.is_empty() {
+                    for w in spell::cardinal(lang, 2 + n % 998, &mut ch) {
+                        push(w, Class::Num, out);
+                    }
+                    if extra[6] & 1 == 0 {
+                        push(chain[extra[6] as usize / 2 % (chain.len() - 1)].to_string(), Class::Num, out);
+                    }
+                    push(chain[chain.len() - 1].to_string(), Class::Num, out);
+                } else {
+                    for w in spell::cardinal(lang, n, &mut ch) {
+                        push(w, Class::Num, out);
+                    }
                 }
             }
             42..=49 => {
